@@ -287,24 +287,27 @@ Section Poly.
     let k := v2cross v (v2sub c a) in
     (k * k) <=? (tol * tol) * v2dot v v.
 
-  (* pcs is the chain start -> ... -> b of pieces of the segment (a,b); t0 = (start - a).(b - a) *)
-  Fixpoint chain_check_from (tol : T) (a b start : V2) (t0 : T) (pcs : list Seg) : bool :=
-    match pcs with
-    | [] => false
-    | pc :: rest =>
-        v2eqb (fst pc) start &&
-        match rest with
-        | [] => v2eqb (snd pc) b
-        | _ =>
-            let v := v2sub b a in
-            let c := snd pc in
-            let t1 := v2dot (v2sub c a) v in
-            (t0 <? t1) && (t1 <? v2dot v v) && on_line_b tol a b c &&
-            chain_check_from tol a b c t1 rest
-        end
+  Definition v2close (tol : T) (a b : V2) : bool :=
+    (oabs O (vx a - vx b) <=? tol) && (oabs O (vy a - vy b) <=? tol).
+
+  (* `cur :: rest` continues the chain of pieces of the segment (a,b); the start of `cur` has been
+     checked, t0 = (start - a).(b - a).  Joints are compared exactly; the two original vertices
+     within `tol` (Snap may move a vertex that is within 1e-9 of a split line onto it). *)
+  Fixpoint chain_rest (tol : T) (a b : V2) (cur : Seg) (t0 : T) (rest : list Seg) : bool :=
+    match rest with
+    | [] => v2close tol (snd cur) b
+    | nxt :: rest' =>
+        let v := v2sub b a in
+        let c := snd cur in
+        let t1 := v2dot (v2sub c a) v in
+        (t0 <? t1) && (t1 <? v2dot v v) && on_line_b tol a b c && v2eqb (fst nxt) c &&
+        chain_rest tol a b nxt t1 rest'
     end.
   Definition chain_check (tol : T) (l : Seg) (pcs : list Seg) : bool :=
-    chain_check_from tol (fst l) (snd l) (fst l) (o0 O) pcs.
+    match pcs with
+    | [] => false
+    | pc :: rest => v2close tol (fst pc) (fst l) && chain_rest tol (fst l) (snd l) pc (o0 O) rest
+    end.
 
   Fixpoint forall2b {A B : Type} (f : A -> B -> bool) (l : list A) (m : list B) : bool :=
     match l, m with
@@ -366,11 +369,14 @@ Section Poly.
     | QNode _ _ _ c0 c1 c2 c3 => owner_check c0 && owner_check c1 && owner_check c2 && owner_check c3
     end.
 
-  (* the certificate: `chains` (one list of pieces per original segment) is a hint that is checked *)
-  Definition well_clipped_check (tol : T) (t : qt Seg) (segs : list Seg) (chains : list (list Seg)) : bool :=
+  (* the certificate: `chains` (one list of pieces per original segment) is a hint that is checked.
+     winding part: all that the crossing-number walk needs; full: plus what the pruning needs. *)
+  Definition winding_clipped_check (tol : T) (t : qt Seg) (segs : list Seg) (chains : list (list Seg)) : bool :=
     forall2b (chain_check tol) segs chains &&
     perm_check (pieces t) (concat chains) &&
-    ray_check t && box_check tol t && owner_check t.
+    ray_check t && owner_check t.
+  Definition well_clipped_check (tol : T) (t : qt Seg) (segs : list Seg) (chains : list (list Seg)) : bool :=
+    winding_clipped_check tol t segs chains && box_check tol t.
 End Poly.
 
 Arguments QNil {O A}.
